@@ -1,14 +1,15 @@
 // C18: scripts are atomic, honour their read-only variants, and are sandboxed.
 //
 // Sub-checks (one file each):
-//   atomic    generated scripts against concurrent writers / a concurrent pair-writing script / an outside reader
-//   lockprobe deterministic half: DevMode SLEEP parks a reader on the shared lock
-//   logging   every write a script makes is in the AOF, survives a restart and reaches a follower
-//   readonly  every command of the command table under EVALRO vs EVAL
-//   sandbox   exact set of names reachable from a script's globals (Go walk + over-the-wire prober)
-//   escapes   generated escape attempts, all must fail and leave no side effect
-//   hygiene   KEYS/ARGV never leak between calls on pooled interpreters
-//   poison    probe for the finding script-mutates-shared-lua-environment
+//
+//	atomic    generated scripts against concurrent writers / a concurrent pair-writing script / an outside reader
+//	lockprobe deterministic half: DevMode SLEEP parks a reader on the shared lock
+//	logging   every write a script makes is in the AOF, survives a restart and reaches a follower
+//	readonly  every command of the command table under EVALRO vs EVAL
+//	sandbox   exact set of names reachable from a script's globals (Go walk + over-the-wire prober)
+//	escapes   generated escape attempts, all must fail and leave no side effect
+//	hygiene   KEYS/ARGV never leak between calls on pooled interpreters
+//	poison    probe for the finding script-mutates-shared-lua-environment
 package c18
 
 import (
